@@ -92,6 +92,28 @@ def main(tier, seed):
     rep.owns = {'C16'}
     lpcheck.run_lp_check('C16', tier, seed, lpruns, report=rep, finish=False,
                          nontrivial=lambda i: i['ncrit'] >= 2)
+    # "only the prefix up to the first solve that does not reach Optimal is reported": fault plans of MC_Faults
+    from . import c14
+    pool2 = engine.Pool()
+    seen = set()
+
+    def flt(tag, rec):
+        import hashlib
+        h = hashlib.sha1(repr((sorted(rec['o'].items(), key=str), rec['plan'], rec['limit'])).encode()).hexdigest()[:16]
+        if h in seen:
+            return False
+        seen.add(h)
+        rec['_h'] = h
+        return True
+    try:
+        for i, r in enumerate(c14.runs_for(tier)):
+            sim = 6000 if q else 60000
+            res = engine.tlc_replay(rep, pool2, 'MC_Faults', c14.replay_fault, consts=r['consts'], invariants=c14.INV, spec='FSpec',
+                                    label='reported prefix under faults: ' + r['label'], export_filter=flt, timeout=3000,
+                                    simulate=(max(1, sim // common.NCPU), 40), seed=seed + 50 + i)
+            rep.notes.append('reported prefix under fault plans: %d plans' % res['exports'])
+    finally:
+        pool2.close()
     rep.assumptions = ['argparse itself is trusted', 'wording of the optimisation lines is mapped by keyword; unknown wording disables only that sub-comparison']
     return rep.finish(exhaustive=False,
                       rule='command lines built flag by flag by TLC (positions around 1..9, extras, -twopl/-stab); non-trivial = at least two criterion flags')
